@@ -220,10 +220,21 @@ theorem bound_step (s : IState) (op : Op) (hop : op.isInterp = true) (h : Bound 
   | updateArrays as => exact (bound_updateParticleArrays s as).1
   | update => simpa [step, updateOp, Bound] using h
   | mutate o => simpa [step, Bound] using h
+  | touch o => simpa [step] using h
   | evalUpdateArrays objs => simp [Op.isInterp] at hop
 
-theorem fresh_step (s : IState) (op : Op) (hop : op.isMutate = false) : Fresh (step s op) := by
+def Op.isTouch : Op → Bool
+  | Op.touch _ => true
+  | _ => false
+
+/-- a data-only change keeps the neighbour lists as current as they were -/
+theorem fresh_touch (s : IState) (o : Nat) (h : Fresh s) : Fresh (step s (Op.touch o)) := by
+  simpa [step] using h
+
+theorem fresh_step (s : IState) (op : Op) (hop : op.isMutate = false)
+    (hop2 : op.isTouch = false) : Fresh (step s op) := by
   cases op with
+  | touch o => simp [Op.isTouch] at hop2
   | setPoints p => exact (bound_setInterpolationPoints s p).2.1
   | updateArrays as => exact (bound_updateParticleArrays s as).2.1
   | update => simp [step, updateOp, Fresh]
@@ -260,6 +271,7 @@ theorem run_arrays_pts (s : IState) (ops : List Op) (hops : ∀ op ∈ ops, op.i
       rw [this.1, this.2, h.2.2.1, h.2.2.2]; simp [lastArrays, lastPts]
     | update => simpa [step, updateOp, lastArrays, lastPts] using this
     | mutate o => simpa [step, lastArrays, lastPts] using this
+    | touch o => simpa [step, lastArrays, lastPts] using this
     | evalUpdateArrays objs => have := hops (Op.evalUpdateArrays objs) (by simp); simp [Op.isInterp] at this
 
 theorem run_bound (s : IState) (ops : List Op) (hops : ∀ op ∈ ops, op.isInterp = true)
@@ -290,6 +302,7 @@ theorem constsBound_step (s : IState) (op : Op) (h : ConstsBound s) : ConstsBoun
   | updateArrays as => simp [step, updateParticleArrays, setArrays, createNnps, ConstsBound]
   | update => simpa [step, updateOp, ConstsBound] using h
   | mutate o => simpa [step, ConstsBound] using h
+  | touch o => simpa [step] using h
   | evalUpdateArrays objs => simp [step, evalUpdateParticleArrays, setArrays, createNnps, ConstsBound]
 
 theorem run_constsBound (s : IState) (ops : List Op) (h : ConstsBound s) : ConstsBound (run s ops) := by
@@ -584,5 +597,61 @@ theorem maxHLoop_spec (hs : List (List α)) (h0 H : α) (hH : maxHLoop hs h0 = s
         · right; exact ⟨h', List.mem_cons_of_mem _ hh', hv⟩
 
 end TargetH
+
+/-! ## order1 over the shared density -/
+section SharedDensity
+variable {α : Type} [Add α] [Sub α] [Mul α] [Div α] [Neg α] [OfNat α 0] [OfNat α 1]
+  [LT α] [DecidableLT α] [BEq α]
+
+theorem order1Compute_snd (tol : α) (dim : Nat) (g : SrcGeo α) (d : Pos α) (pn : List (PtNbr α))
+    (st : Store α) :
+    (order1Compute tol dim g d pn st).2 = order1 tol dim d (pn.map (ptNbr (group1 g st))) := rfl
+
+theorem rhoNbr_map_congr (st st' : Store α) (hm : st.m = st'.m) (l : List (Nat × α)) :
+    (l.map (rhoNbr st)).foldl rhoStep 0 = (l.map (rhoNbr st')).foldl rhoStep 0 := by
+  generalize (0 : α) = acc
+  induction l generalizing acc with
+  | nil => rfl
+  | cons kw rest ih =>
+    simp only [List.map_cons, List.foldl_cons]
+    have : rhoStep acc (rhoNbr st kw) = rhoStep acc (rhoNbr st' kw) := by
+      simp [rhoStep, rhoNbr, hm]
+    rw [this]; exact ih _
+
+/-- `SummationDensity` reads masses and kernel values only: not the old `rho` -/
+theorem densityAt_congr (st st' : Store α) (hm : st.m = st'.m) (g : SrcGeo α) (j : Nat) :
+    densityAt st g j = densityAt st' g j := by
+  unfold densityAt summationDensity
+  exact rhoNbr_map_congr st st' hm _
+
+theorem group1_rho_of_mem (g : SrcGeo α) (st : Store α) (j : Nat) (h : j ∈ g.ids) :
+    (group1 g st).rho j = densityAt st g j := by
+  simp [group1, h]
+
+theorem ptNbr_group1_congr (g : SrcGeo α) (st st' : Store α) (hm : st.m = st'.m)
+    (hf : st.f = st'.f) (pn : List (PtNbr α)) (hin : ∀ p ∈ pn, p.k ∈ g.ids) :
+    pn.map (ptNbr (group1 g st)) = pn.map (ptNbr (group1 g st')) := by
+  apply List.map_congr_left
+  intro p hp
+  have h := hin p hp
+  simp only [ptNbr]
+  rw [group1_rho_of_mem g st p.k h, group1_rho_of_mem g st' p.k h, densityAt_congr st st' hm]
+  simp [group1, hm, hf]
+
+theorem srun_rhoOnly (st : Store α) (ops : List (SOp α)) (h : ∀ op ∈ ops, op.rhoOnly = true) :
+    (srun st ops).m = st.m ∧ (srun st ops).f = st.f := by
+  induction ops generalizing st with
+  | nil => exact ⟨rfl, rfl⟩
+  | cons op rest ih =>
+    have hr := ih (sstep st op) (fun o ho => h o (by simp [ho]))
+    have ho := h op (by simp)
+    simp only [srun, List.foldl_cons] at hr ⊢
+    cases op with
+    | setM m => simp [SOp.rhoOnly] at ho
+    | setF f => simp [SOp.rhoOnly] at ho
+    | setRho r => simpa [sstep] using hr
+    | otherOrder1 g' => simpa [sstep, group1] using hr
+
+end SharedDensity
 
 end PysphVerif.Interp
